@@ -26,6 +26,9 @@ pub struct Scenario {
     pub has_dup: bool,
     pub has_exotic: bool,
     pub has_nonfinite: bool,
+    /// two spellings of one map key were injected: which one ends up in the value depends on the
+    /// delivery order (later wins), so values are not compared across orders
+    pub has_collision: bool,
     pub src_faults: FaultCounts,
     /// label of the special shape, if any ("deep128", "long10000")
     pub special: Option<String>,
@@ -45,6 +48,7 @@ impl Scenario {
             "seed": self.seed.to_string(),
             "run_index": self.run_index,
             "special": self.special,
+            "has_collision": self.has_collision,
         })
     }
 
@@ -61,6 +65,7 @@ impl Scenario {
             has_dup: doc.has_dup_keys(),
             has_exotic: has_exotic(&doc),
             has_nonfinite: has_nonfinite(&doc),
+            has_collision: j.get("has_collision").and_then(|b| b.as_bool()).unwrap_or(false),
             doc,
             leaf_faults: j
                 .get("leaf_faults")?
@@ -236,7 +241,7 @@ pub fn generate(
         cands.dedup();
         // with duplicate keys no property says which occurrence ends up in the value, and a
         // callback's failure is a function of the value it is given: no callback faults then
-        let n_cb = if has_dup { 0 } else { n_cb };
+        let n_cb = if has_dup || src_faults.collide > 0 { 0 } else { n_cb };
         for _ in 0..n_cb {
             if cands.is_empty() {
                 break;
@@ -259,6 +264,7 @@ pub fn generate(
         has_dup,
         has_exotic,
         has_nonfinite,
+        has_collision: src_faults.collide > 0,
         src_faults,
         special,
     }
